@@ -81,10 +81,17 @@ class Conv:
 def conv_table(table, ops):
     """entries (ty, cast?, v, out) for every retyped column x every value that can reach it"""
     retypes = {}
+    added = {}      # added column -> ([types it has / gets], [default values it has / gets])
     for o in ops:
+        if o["op"] == "add_column":
+            added[o["col"]["name"]] = ([o["col"]["ty"]], [o["col"].get("dval")])
         if o["op"] == "alter_column" and o.get("type"):
             retypes.setdefault(o["name"], []).append(o["type"]["ty"])
-    if not retypes:
+            if o["name"] in added:
+                added[o["name"]][0].append(o["type"]["ty"])
+        if o["op"] == "alter_column" and o.get("default") is not None and o["name"] in added:
+            added[o["name"]][1].append(bi.default_value(o["default"]["set"]))
+    if not retypes and not any(v is not None for _, dv in added.values() for v in dv):
         return []
     cv = Conv()
     out = []
@@ -98,6 +105,12 @@ def conv_table(table, ops):
 
     names = [c["name"] for c in table["cols"]]
     try:
+        # the default of an added column is stored into the column's final declared type
+        for col, (tys, dvs) in added.items():
+            for ty in tys:
+                for v in dvs:
+                    if v is not None:
+                        add(ty, False, v, cv.store(ty, v))
         for col, tys in retypes.items():
             if col not in names:
                 continue
@@ -173,15 +186,17 @@ def ix_order_of(stmts, table):
 
 # ------------------------------------------------------------------------------- one case
 
-def new_case(table, ops, recreate="always", copy_from=False, fault=None, scope="none"):
-    return {"table": table, "ops": ops, "recreate": recreate, "copy_from": copy_from, "fault": fault, "scope": scope}
+def new_case(table, ops, recreate="always", copy_from=False, fault=None, scope="none", iso="default", tddl=None):
+    return {"table": table, "ops": ops, "recreate": recreate, "copy_from": copy_from, "fault": fault, "scope": scope,
+            "iso": iso, "tddl": tddl}
 
 
 def run_impl(case):
-    db = bi.Db(case["table"], bg.PARENT_SQL)
+    db = bi.Db(case["table"], bg.PARENT_SQL, iso=case.get("iso", "default"))
     try:
         return bi.run_batch(db, case["ops"], recreate=case["recreate"], copy_from=case["copy_from"],
-                            fault=case["fault"], scope=case["scope"], universe=bg.universe(case["table"], case["ops"]))
+                            fault=case["fault"], scope=case["scope"], universe=bg.universe(case["table"], case["ops"]),
+                            tddl=case.get("tddl"))
     finally:
         db.close()
 
@@ -196,6 +211,8 @@ def model_op(case, r):
         "ops": [jop(o) for o in case["ops"]],
         "fault": case["fault"],
         "commitOnError": case["scope"] == "swallow",
+        "mode": case.get("iso", "default"),
+        "tddl": bool(case.get("tddl")),
         "db": {"orig": jtable(before, ix_order_of(r["stmts"], before)), "tmp": None},
         "convs": conv_table(before, case["ops"]),
     }
